@@ -252,6 +252,11 @@ def rule_K4(ctx: Ctx) -> None:
         ctx.judge(c, not_cmp == ["n_mazes"], {"fields": list(allf), "compare_false": not_cmp},
                   "exactly n_mazes is excluded from config comparison (filters legitimately change it); every other field identifies the dataset",
                   "a field that identifies the dataset is ignored by the cache check: a cache file of a different configuration is accepted")
+        # `diff` starts with `if self == other: return {}`: equality of configurations must be the field-wise one of the dataclass machinery
+        eq = model.effective(c, "__eq__")
+        ctx.judge(c, eq.kind != "explicit", {"effective___eq__": eq.to_json()},
+                  "configuration classes define no __eq__ of their own: the cache check's `diff` short-cuts on ==, which must be field-wise equality",
+                  "two different configurations that an explicit __eq__ calls equal (same file name, same hash digits ...) pass the cache check: the file of one is served for the other")
 
 
 def rule_K5(ctx: Ctx) -> None:
@@ -316,7 +321,7 @@ RULES = [
     Rule("C11.K1", rule_K1, floor=3, doc="read failures fall through"),
     Rule("C11.K2", rule_K2, floor=2, doc="config check on every path; mismatch raises by default"),
     Rule("C11.K3", rule_K3, floor=2, doc="regenerate and overwrite"),
-    Rule("C11.K4", rule_K4, floor=2, doc="identity fields"),
+    Rule("C11.K4", rule_K4, floor=4, doc="identity fields"),
     Rule("C11.K5", rule_K5, floor=2, doc="file name from the request"),
     Rule("C11.K6", rule_K6, floor=2, doc="what is written is what was checked"),
     Rule("C11.E12", lambda ctx: __import__("sa.mypyx", fromlist=["x"]).cross_check(ctx, [f"{DS}.GPTDataset.save"], "C11.E12"), floor=1,
